@@ -458,7 +458,8 @@ pub fn check_c08(case: &Case, st: &mut Stats) -> Verdict {
     let live_before = crate::alloc::thread_live();
     let _ = crate::alloc::thread_peak_reset();
     let mut opts = RunOpts::default();
-    opts.lean = c.inserts.len() > 50_000;
+    // hook-free real-scale runs measure the heap: their transcript must not retain the entries
+    opts.lean = c.inserts.len() > 50_000 || knobs.raw_threshold.is_none();
     // transient-fault family: a failing component (here: the chunk creator) makes one insert
     // return Err; the caller keeps inserting and the bounds must keep holding
     opts.continue_after_err = !c.env.faults.is_empty();
